@@ -942,15 +942,15 @@ func (vm *VM) throw(err *RuntimeError, noTrace bool) error {
 
 	vm.frameIndex = index + 1
 
-	if e := vm.handleThrownError(frame, err); e != nil {
-		return e
-	}
-
+	// the handler's frame becomes the current one before the error is
+	// delivered: if its innermost handler is already used up (the error comes
+	// from a call inside a finally block) the enclosing handlers of the same
+	// frame must be tried next, not skipped.
 	vm.curFrame = frame
-	vm.curFrame.fn = frame.fn
 	vm.curInsts = frame.fn.Instructions
+	vm.ip = frame.ip + 1
 
-	return nil
+	return vm.handleThrownError(frame, err)
 }
 
 func (vm *VM) handleThrownError(frame *frame, err *RuntimeError) error {
